@@ -23,437 +23,7 @@ type c20Model struct {
 	Sensitive bool     `json:"sensitive"`
 }
 
-// ---- generator: graph stream ----
-
-type c20GNode struct {
-	key     string
-	pt      bool
-	in, out string
-}
-
-func c20Pick(r *vh.Rand, l []string) string { return l[r.Intn(len(l))] }
-
-// a type a value of (declared) type `from` may flow into without a guaranteed mismatch
-func c20CompatibleIn(r *vh.Rand, from string) string {
-	if r.Chance(70) {
-		return from
-	}
-	var cands []string
-	for _, t := range c20TyNames {
-		if t == from {
-			continue
-		}
-		ft, tt := c20RTypes[from], c20RTypes[t]
-		if ft.AssignableTo(tt) || (ft.Kind().String() == "interface" && tt.AssignableTo(ft)) {
-			cands = append(cands, t)
-		}
-	}
-	if len(cands) == 0 {
-		return from
-	}
-	return c20Pick(r, cands)
-}
-
-func c20DynFor(r *vh.Rand, out string) string {
-	var cands []string
-	for _, c := range c20Concrete {
-		if c20Inhabits(c, out) {
-			cands = append(cands, c)
-		}
-	}
-	return c20Pick(r, cands)
-}
-
-func c20NodeOp(r *vh.Rand, n c20GNode) c20Op {
-	if n.pt {
-		return c20Op{Op: "node", Key: n.key, PT: true}
-	}
-	return c20Op{Op: "node", Key: n.key, In: n.in, Out: n.out, Dyn: c20DynFor(r, n.out)}
-}
-
-// c20GenGraph builds a mostly well-formed construction sequence and then (usually) breaks it.
-func c20GenGraph(r *vh.Rand, forRuns bool) *c20Case {
-	c := &c20Case{Stream: "graph", Cmp: "graph", Impl: c20Impl()}
-	basic := []string{"c0", "c0", "c1", "c2", "c3", "c4", "c5", "i0", "i1", "any"}
-	c.InT = c20Pick(r, basic)
-	if r.Chance(35) {
-		s := r.Intn(2)
-		c.State = &s
-	}
-	nn := r.Range(1, 5)
-	names := []string{"a", "b", "c", "d", "e"}
-	var nodes []c20GNode
-	// spine START -> n0 -> n1 -> ... -> END with mostly compatible types
-	cur := c.InT // declared type flowing along the spine ("" = unknown yet)
-	for i := 0; i < nn; i++ {
-		n := c20GNode{key: names[i]}
-		if r.Chance(30) {
-			n.pt = true
-		} else {
-			if r.Chance(88) {
-				n.in = c20CompatibleIn(r, cur)
-			} else {
-				n.in = c20Pick(r, basic)
-			}
-			n.out = c20Pick(r, basic)
-			cur = n.out
-		}
-		nodes = append(nodes, n)
-	}
-	if r.Chance(88) {
-		c.OutT = c20CompatibleIn(r, cur)
-	} else {
-		c.OutT = c20Pick(r, basic)
-	}
-	var nodeOps, linkOps []c20Op
-	for _, n := range nodes {
-		op := c20NodeOp(r, n)
-		if c.State != nil && r.Chance(25) {
-			t := n.in
-			if n.pt {
-				t = "any"
-			}
-			op.Pre = &c20Handler{S: *c.State, T: t}
-		}
-		if c.State != nil && r.Chance(20) {
-			t := n.out
-			if n.pt {
-				t = "any"
-			}
-			op.Post = &c20Handler{S: *c.State, T: t}
-		}
-		nodeOps = append(nodeOps, op)
-	}
-	edge := func(s, e string) { linkOps = append(linkOps, c20Op{Op: "edge", S: s, E: e}) }
-	outOf := func(i int) string { // declared out type of spine position i (-1 = START), "" unknown
-		for j := i; j >= 0; j-- {
-			if !nodes[j].pt {
-				return nodes[j].out
-			}
-		}
-		return c.InT
-	}
-	// spine edges; some replaced by a branch
-	prev := "start"
-	for i, n := range nodes {
-		if i > 0 && r.Chance(22) && i+1 <= nn {
-			// branch from prev to {this node, some other later node or END}
-			other := "end"
-			if i+1 < nn && r.Bool() {
-				other = nodes[r.Range(i+1, nn-1)].key
-			}
-			t := outOf(i - 1)
-			if r.Chance(25) {
-				t = c20CompatibleIn(r, t)
-			}
-			linkOps = append(linkOps, c20Op{Op: "branch", S: prev, T: t, Ends: c20SortedCopy([]string{n.key, other}), Pick: n.key})
-		} else {
-			edge(prev, n.key)
-		}
-		prev = n.key
-	}
-	edge(prev, "end")
-	// extra edges: forward (fan-in/out), occasionally backward (cycle)
-	for k := r.Intn(3); k > 0 && nn >= 2; k-- {
-		i, j := r.Intn(nn), r.Intn(nn)
-		if i == j {
-			continue
-		}
-		if i > j && !r.Chance(35) {
-			i, j = j, i
-		}
-		edge(nodes[i].key, nodes[j].key)
-	}
-	if r.Chance(12) { // branch from START
-		linkOps = append(linkOps, c20Op{Op: "branch", S: "start", T: c.InT, Ends: c20SortedCopy([]string{nodes[0].key, "end"}), Pick: nodes[0].key})
-	}
-	if !forRuns && r.Chance(6) { // zero-end branch (accepted by the code; typed pass-through corner)
-		linkOps = append(linkOps, c20Op{Op: "branch", S: nodes[r.Intn(nn)].key, T: c20Pick(r, basic), Ends: []string{}, Pick: ""})
-	}
-	// call order
-	shuffle := func(l []c20Op) []c20Op {
-		p := r.Perm(len(l))
-		o := make([]c20Op, len(l))
-		for i, j := range p {
-			o[i] = l[j]
-		}
-		return o
-	}
-	var ops []c20Op
-	switch x := r.Intn(100); {
-	case x < 55: // nodes first, links shuffled
-		ops = append(shuffle(nodeOps), shuffle(linkOps)...)
-	case x < 85: // interleaved, every link after the nodes it names
-		ops = shuffle(nodeOps)
-		added := map[string]bool{"start": true, "end": true}
-		var out []c20Op
-		pending := shuffle(linkOps)
-		for _, no := range ops {
-			out = append(out, no)
-			added[no.Key] = true
-			var rest []c20Op
-			for _, l := range pending {
-				ok := added[l.S]
-				if l.Op == "edge" {
-					ok = ok && added[l.E]
-				} else {
-					for _, e := range l.Ends {
-						ok = ok && added[e]
-					}
-				}
-				if ok && r.Chance(70) {
-					out = append(out, l)
-				} else {
-					rest = append(rest, l)
-				}
-			}
-			pending = rest
-		}
-		ops = append(out, pending...)
-	default: // fully random order (links may precede their nodes: unknown-node errors)
-		ops = shuffle(append(append([]c20Op{}, nodeOps...), linkOps...))
-	}
-	// compile options
-	comp := c20Op{Op: "compile"}
-	switch x := r.Intn(100); {
-	case x < 50:
-	case x < 65:
-		comp.Mode = "any"
-	default:
-		comp.Mode = "all"
-	}
-	if r.Chance(10) {
-		comp.MaxSteps = r.Range(1, 30)
-	}
-	c.Ops = ops
-	if !forRuns && r.Chance(55) {
-		c20Inject(r, c, nodes, &comp)
-	}
-	c.Ops = append(c.Ops, comp)
-	if forRuns {
-		return c
-	}
-	// after Compile: Add* attempts, re-Compile, more attempts
-	post := r.Intn(5)
-	for k := 0; k < post; k++ {
-		switch r.Intn(5) {
-		case 0:
-			c.Ops = append(c.Ops, c20Op{Op: "node", Key: "z" + fmt.Sprint(k), In: "c0", Out: "c0", Dyn: "c0"})
-		case 1:
-			c.Ops = append(c.Ops, c20Op{Op: "node", Key: "y" + fmt.Sprint(k), PT: true})
-		case 2:
-			c.Ops = append(c.Ops, c20Op{Op: "edge", S: nodes[r.Intn(nn)].key, E: "end"})
-		case 3:
-			c.Ops = append(c.Ops, c20Op{Op: "branch", S: nodes[r.Intn(nn)].key, T: c20Pick(r, basic), Ends: c20SortedCopy([]string{"end", nodes[0].key}), Pick: "end"})
-		case 4:
-			cc := comp
-			if r.Chance(30) {
-				cc.Mode = c20Pick(r, []string{"", "any", "all"})
-			}
-			c.Ops = append(c.Ops, cc)
-		}
-	}
-	return c
-}
-
-var c20InjectKinds = []string{"reserved", "dupNode", "unknownStart", "unknownEnd", "dupEdge", "endAsStart", "startAsEnd",
-	"singleBranch", "branchUnknownStart", "branchUnknownEnd", "handlerNoState", "handlerStateTy", "handlerTy",
-	"ptHandlerNotAny", "nodeKeyOpt", "typeMismatch", "branchMismatch", "noEntry", "noExit", "uninferable", "cycleDag", "maxStepsDag"}
-
-// c20Inject puts one violation of the chosen kind at a random position of the sequence.
-func c20Inject(r *vh.Rand, c *c20Case, nodes []c20GNode, comp *c20Op) {
-	kind := c20Pick(r, c20InjectKinds)
-	c.Inject = kind
-	pos := r.Intn(len(c.Ops) + 1)
-	ins := func(op c20Op) {
-		c.Ops = append(c.Ops[:pos], append([]c20Op{op}, c.Ops[pos:]...)...)
-	}
-	anyNode := nodes[r.Intn(len(nodes))]
-	lam := func(key string) c20Op { return c20Op{Op: "node", Key: key, In: "c0", Out: "c0", Dyn: "c0"} }
-	other := func(ty string) string {
-		for {
-			t := c20Pick(r, c20Concrete)
-			if t != ty {
-				return t
-			}
-		}
-	}
-	switch kind {
-	case "reserved":
-		ins(lam(c20Pick(r, []string{"start", "end"})))
-	case "dupNode":
-		if r.Bool() {
-			ins(lam(anyNode.key))
-		} else {
-			ins(c20Op{Op: "node", Key: anyNode.key, PT: true})
-		}
-	case "unknownStart":
-		ins(c20Op{Op: "edge", S: "ghost", E: anyNode.key})
-	case "unknownEnd":
-		ins(c20Op{Op: "edge", S: anyNode.key, E: "ghost"})
-	case "dupEdge":
-		var edges []c20Op
-		for _, o := range c.Ops {
-			if o.Op == "edge" {
-				edges = append(edges, o)
-			}
-		}
-		if len(edges) > 0 {
-			ins(edges[r.Intn(len(edges))])
-		}
-	case "endAsStart":
-		if r.Bool() {
-			ins(c20Op{Op: "edge", S: "end", E: anyNode.key})
-		} else {
-			ins(c20Op{Op: "branch", S: "end", T: "c0", Ends: c20SortedCopy([]string{anyNode.key, "end"}), Pick: "end"})
-		}
-	case "startAsEnd":
-		ins(c20Op{Op: "edge", S: anyNode.key, E: "start"})
-	case "singleBranch":
-		ins(c20Op{Op: "branch", S: anyNode.key, T: c20Pick(r, c20TyNames), Ends: []string{c20Pick(r, []string{"end", nodes[0].key})}, Pick: "end"})
-	case "branchUnknownStart":
-		ins(c20Op{Op: "branch", S: "ghost", T: "c0", Ends: c20SortedCopy([]string{anyNode.key, "end"}), Pick: "end"})
-	case "branchUnknownEnd":
-		ins(c20Op{Op: "branch", S: anyNode.key, T: c20Pick(r, c20TyNames), Ends: c20SortedCopy([]string{"ghost", "end"}), Pick: "end"})
-	case "handlerNoState", "handlerStateTy", "handlerTy", "ptHandlerNotAny", "nodeKeyOpt":
-		// rewrite one node-adding call
-		var idx []int
-		for i, o := range c.Ops {
-			if o.Op == "node" && (kind != "ptHandlerNotAny" || o.PT) && (kind != "handlerTy" || !o.PT) {
-				idx = append(idx, i)
-			}
-		}
-		if len(idx) == 0 {
-			c.Inject = ""
-			return
-		}
-		o := &c.Ops[idx[r.Intn(len(idx))]]
-		st := 0
-		if c.State != nil {
-			st = *c.State
-		}
-		ty := o.In
-		if o.PT {
-			ty = "any"
-		}
-		switch kind {
-		case "handlerNoState":
-			c.State = nil
-			for i := range c.Ops {
-				c.Ops[i].Pre, c.Ops[i].Post = nil, nil
-			}
-			o.Pre = &c20Handler{S: 0, T: ty}
-		case "handlerStateTy":
-			if c.State == nil {
-				c.State = &st
-			}
-			o.Pre, o.Post = nil, nil
-			if r.Bool() {
-				o.Pre = &c20Handler{S: 1 - st, T: ty}
-			} else {
-				t := o.Out
-				if o.PT {
-					t = "any"
-				}
-				o.Post = &c20Handler{S: 1 - st, T: t}
-			}
-		case "handlerTy":
-			if c.State == nil {
-				c.State = &st
-			}
-			if r.Bool() {
-				o.Pre = &c20Handler{S: st, T: other(o.In)}
-			} else {
-				o.Post = &c20Handler{S: st, T: other(o.Out)}
-			}
-		case "ptHandlerNotAny":
-			if c.State == nil {
-				c.State = &st
-			}
-			if r.Bool() {
-				o.Pre = &c20Handler{S: st, T: c20Pick(r, c20Concrete)}
-			} else {
-				o.Post = &c20Handler{S: st, T: c20Pick(r, c20Concrete)}
-			}
-		case "nodeKeyOpt":
-			o.KeyOpt = true
-		}
-	case "typeMismatch":
-		// a lambda whose input can never take what its predecessor produces
-		k := "m"
-		ins(c20Op{Op: "edge", S: k, E: "end"})
-		ins(c20Op{Op: "edge", S: "start", E: k})
-		ins(c20Op{Op: "node", Key: k, In: other(c.InT), Out: c.OutT, Dyn: c20DynFor(r, c.OutT)})
-		if c.InT == "any" || c.InT == "i0" || c.InT == "i1" {
-			c.Inject = "typeMay" // upstream is an interface: not a definite mismatch
-		}
-	case "branchMismatch":
-		if anyNode.pt {
-			c.Inject = ""
-			return
-		}
-		ins(c20Op{Op: "branch", S: anyNode.key, T: other(anyNode.out), Ends: c20SortedCopy([]string{nodes[0].key, "end"}), Pick: "end"})
-		pos = len(c.Ops) // keep it after the node exists most of the time
-	case "noEntry":
-		var ops []c20Op
-		for _, o := range c.Ops {
-			if !(o.S == "start") {
-				ops = append(ops, o)
-			}
-		}
-		c.Ops = ops
-	case "noExit":
-		var ops []c20Op
-		for _, o := range c.Ops {
-			keep := true
-			if o.Op == "edge" && o.E == "end" {
-				keep = false
-			}
-			if o.Op == "branch" {
-				for _, e := range o.Ends {
-					if e == "end" {
-						keep = false
-					}
-				}
-			}
-			if keep {
-				ops = append(ops, o)
-			}
-		}
-		c.Ops = ops
-	case "uninferable":
-		ins(c20Op{Op: "edge", S: "p1", E: "p2"})
-		ins(c20Op{Op: "node", Key: "p2", PT: true})
-		ins(c20Op{Op: "node", Key: "p1", PT: true})
-	case "cycleDag":
-		comp.Mode = "all"
-		a := anyNode.key
-		ins(c20Op{Op: "edge", S: "q", E: a})
-		ins(c20Op{Op: "edge", S: a, E: "q"})
-		t := anyNode.out
-		ti := anyNode.in
-		if anyNode.pt {
-			ins(c20Op{Op: "node", Key: "q", PT: true})
-		} else {
-			ins(c20Op{Op: "node", Key: "q", In: t, Out: ti, Dyn: c20DynFor(r, ti)})
-		}
-	case "maxStepsDag":
-		comp.Mode = "all"
-		comp.MaxSteps = r.Range(1, 20)
-	}
-}
-
 // ---- one case ----
-
-func c20Key(c *c20Case) string {
-	b, _ := json.Marshal(struct {
-		A, B, C string
-		S       *int
-		O       []c20Op
-		W       *c20WfExt
-	}{c.Stream, c.InT, c.OutT, c.State, c.Ops, c.Extra})
-	return string(b)
-}
 
 func c20Exec(c *c20Case) c20Obs {
 	switch c.Stream {
@@ -547,9 +117,11 @@ func c20Check(ctx *vh.Ctx, c *c20Case, repeats int) (*c20Diff, *c20Model, *c20Ob
 func c20Determinism(c *c20Case, first *c20Obs, repeats int) *c20Diff {
 	for k := 1; k < repeats; k++ {
 		o := c20Exec(c)
-		if strings.Join(o.Out, ",") != strings.Join(first.Out, ",") {
+		// accept/reject must not vary; which of two simultaneous violations is reported first may
+		// follow Go's map order (e.g. two bad end nodes of one branch), so error identity is not compared here
+		if c20Coarse(o.Out) != c20Coarse(first.Out) {
 			i := 0
-			for i < len(o.Out) && i < len(first.Out) && o.Out[i] == first.Out[i] {
+			for i < len(o.Out) && i < len(first.Out) && c20Coarse(o.Out[i:i+1]) == c20Coarse(first.Out[i:i+1]) {
 				i++
 			}
 			return &c20Diff{"C20:nondeterministic:" + c20ObservedOpKind(c, i),
